@@ -68,8 +68,13 @@ theorem not_lost (c : Scope) (lv : Level) (msg : List Char) (args : List Arg) (e
   · simp only [ha, ↓reduceIte, Option.some.injEq] at h ⊢
     rw [h]
   · simp only [ha, Bool.false_eq_true, ↓reduceIte] at h ⊢
-    rw [render_escape_append, render_cons_ne ' ' msg args (by decide), h]
-    simp
+    by_cases hm : isMapping args
+    · simp only [hm, ↓reduceIte] at h ⊢
+      rw [renderMap_escape_append, renderMap_cons_ne ' ' msg args (by decide), h]
+      simp
+    · simp only [hm, Bool.false_eq_true, ↓reduceIte] at h ⊢
+      rw [render_escape_append, render_cons_ne ' ' msg args (by decide), h]
+      simp
 
 /-- C19.tagged: every record logged through the context inside a scope is emitted at the requested level to
 that scope's logger, carries the exception when one was passed, and its text – when the caller's format and
@@ -150,6 +155,12 @@ example :
     (build none [({ name := "outer".toList, trace := some "tr1".toList }, 0), ({ name := "inner".toList }, 1),
                  ({ name := "x".toList, logger := some 2 }, 2)]).map (fun c => (c.trace, c.logger))
       = some (.given "tr1".toList, .supplied 2) := by decide
+
+/-- a single mapping argument with named placeholders, '%' in the scope name: the record formats -/
+example :
+    (logIn (some (mkScope none { name := "50%".toList } 0)) .info "user %(name)s has %(n)d".toList
+        [.kvStr "name".toList "bob".toList, .kvInt "n".toList 3] false).text
+      = some "[@t0] [50%] [@i0] user bob has 3".toList := by decide
 
 /-- a disagreeing user format is lost (not raised) -/
 example : (logIn (some (mkScope none { name := "a".toList } 0)) .error "%d".toList [.str "x".toList] false).text = none := by
